@@ -617,8 +617,19 @@ def check_attrs(ctx, v, schema):
             ctx.disagree("inherited attributes (XML reader) = HedTagEntry", {"schema": v.name, "tag": n}, mine, theirs)
 
 
+_VARIANT = None
+
+
 def detect_variant():
-    """which spelling of the duplicate rule the tree under test has (source text, never imported)"""
+    """which spelling of the duplicate rule the tree under test has (source text, never imported); read once per run,
+    when hed is imported, so that a commit landing in the tree during a long run cannot split model and implementation"""
+    global _VARIANT
+    if _VARIANT is None:
+        _VARIANT = _detect_variant()
+    return _VARIANT
+
+
+def _detect_variant():
     from harness import common
     src = lambda rel: (common.REPO / rel).read_text()
     return {"sortCanonical": "_sort_key" in src("hed/models/hed_group.py"),
@@ -749,6 +760,7 @@ def run_schema(ctx, name, n_grammar, n_fuzz, sweep):
 
 def run(ctx):
     install_recorder()
+    ctx.extra["duplicate_rule_variant"] = detect_variant()
     ctx.extra["rule"] = ("grammar: conforming annotations over the schema vocabulary (random suffix form/case, extensions, values "
                          "with accepted units, Event-context/Duration/Delay groups, nesting <= 3, no repeated siblings) and one "
                          "injected violation per kind; fuzz: random strings over tags, fragments, delimiters, #{}[]~:, "
